@@ -54,6 +54,17 @@ impl IOCtx {
             ))
         })?;
 
+        if output_path.is_txtpp_file() {
+            // the output would itself be a txtpp source (e.g. `foo.txtpp.txtpp`)
+            return Err(Report::new(Self::make_error_with_kind(
+                input_path.clone(),
+                PpErrorKind::OpenFile,
+            ))
+            .attach_printable(format!(
+                "output path for input file `{input_path}` cannot be a txtpp file"
+            )));
+        }
+
         let out = CtxOut::new(mode, &input_path, &output_path)?;
 
         let work_dir = input_file.parent().map_err(|e| {
